@@ -9,7 +9,7 @@ PID = 'C14'
 RULE = ('encode_str then decode_str on strings drawn from ASCII, Latin-1 supplement, C0/C1 controls, BMP and astral scalars, alone and '
         'mixed, inside and outside Macro 05/06 envelopes; utf8_to_latin1 / latin1_to_utf8 on every scalar value up to U+017F plus '
         'samples of the rest and on all 256 bytes; non-trivial = non-empty string')
-THEOREMS = ''
+THEOREMS = 'C14_tables, C14_helpers, C14_inverse, C14_choice, C14_eci_header, C14_utf8_roundtrip'
 ASSUMPTIONS = ['Rust String/char modelled as scalar lists; the sort order of remove_hopeless_cases is taken from the implementation']
 POOLS = {
     'ascii': list(range(32, 127)),
